@@ -8,7 +8,7 @@ from ..loopflow import count_in_path, first_index
 from ..model import AnalysisError, FuncInfo, Program, dotted, own_nodes, unparse
 from ..symex import atoms_of, facts_for
 from .common import U, bind_args, const_value, enum_member, enum_members, is_self_attr, kwarg, np_call, returns_of, short
-from .solveloop import is_aug, is_method_call, solve_loop
+from .solveloop import is_aug, is_method_call, loop_name, solve_loop
 
 STATUS = "pygradflow.status.SolverStatus"
 
@@ -71,6 +71,7 @@ def run(prog: Program, rep, tier: str) -> None:
 
     callees(prog, rep)
     accounting(prog, rep)
+    integration_accounting(prog, rep)
 
 
 def callees(prog: Program, rep) -> None:
@@ -132,27 +133,39 @@ def callees(prog: Program, rep) -> None:
 def accounting(prog: Program, rep) -> None:
     L = solve_loop(prog)
     sv, ff = L.fi, L.ff
-    # (a) first action: status = self._check_terminate(iterate, iteration, timer); if status is not None: break
-    first = L.body[0]
-    ok_first = isinstance(first, ast.Assign) and is_method_call(first.value, "_check_terminate") and U(first.value.func.value) == "self"
-    rep.check(ok_first, "check-before-change", sv.qualname, short(first), "the first statement of every loop iteration is the termination test", sv.loc(first))
-    if not ok_first:
-        return
-    b = bind_args(L.check_terminate, first.value)
+    N = L.names()
+    kind, tcall, status_name, holder = L.head()
+    # (a) the termination test is the first action of every loop iteration and a non-None status leaves before anything else
+    if kind == "while-true":
+        first = L.body[0]
+        ok_first = first is holder and status_name is not None
+        rep.check(ok_first, "check-before-change", sv.qualname, short(first), "the first statement of every loop iteration is the termination test", sv.loc(first))
+        if not ok_first:
+            return
+        second = L.body[1] if len(L.body) > 1 else None
+        ok_second = isinstance(second, ast.If) and atoms_of(second.test, True) == [("isnot", status_name, "None")] and not second.orelse \
+            and isinstance(second.body[-1], ast.Break) and all(isinstance(s, (ast.Expr, ast.Break)) for s in second.body)
+        rep.check(ok_second, "check-before-change", sv.qualname, short(second) if second is not None else "",
+                  "a non-None status leaves the loop immediately (before any step computation or state change)", sv.loc(second) if second is not None else sv.loc())
+        status_block = second
+    elif kind == "walrus":
+        rep.ok("check-before-change", sv.short, "the loop condition itself is `(status := _check_terminate(..)) is None`: the test runs before every iteration and a non-None status ends the loop")
+        status_block = None
+    elif kind == "pre-tail":
+        rep.ok("check-before-change", sv.short, "the termination test runs immediately before the loop and again as the last statement of every iteration; the loop runs while its result is None")
+        status_block = None
+    else:
+        raise AnalysisError("Solver.solve: the main loop's termination test is in neither of the recognised forms (while True + break / while (s := check()) is None)")
     itp, itn, tmr = [p for p in L.check_terminate.params if p != "self"][:3]
-    args = {k: ff.resolved(first, v) for k, v in b.items()} if b else {}
-    rep.check(bool(b) and U(args[itp]).startswith("__loop__('iterate'") and U(args[itn]).startswith("__loop__('iteration'") and U(args[tmr]).startswith("Timer(self.params.time_limit"),
-              "check-before-change", sv.qualname, short(first),
-              "the termination test sees the current iterate, the iteration counter and the Timer built from params.time_limit", sv.loc(first))
-    status_name = U(first.targets[0])
-    second = L.body[1] if len(L.body) > 1 else None
-    ok_second = isinstance(second, ast.If) and atoms_of(second.test, True) == [("isnot", status_name, "None")] and not second.orelse \
-        and isinstance(second.body[-1], ast.Break) and all(isinstance(s, (ast.Expr, ast.Break)) for s in second.body)
-    rep.check(ok_second, "check-before-change", sv.qualname, short(second) if second is not None else "",
-              "a non-None status leaves the loop immediately (before any step computation or state change)", sv.loc(second) if second is not None else sv.loc())
+    args = L.term_args()
+    rep.check(N["iterate"] is not None and U(args[itp]).startswith(f"__loop__('{N['iterate']}'") and N["iteration"] is not None and U(args[tmr]).startswith("Timer(self.params.time_limit")
+              and loop_name(U(args[itp])) == loop_name(U(L.step_args()[[p for p in L.compute_step.params if p != "self"][1]])),
+              "check-before-change", sv.qualname, short(holder) if isinstance(holder, ast.stmt) and not isinstance(holder, ast.While) else U(tcall),
+              "the termination test sees the current iterate (the one the next step starts from), the iteration counter and the Timer built from params.time_limit", sv.loc(tcall))
     # (b) exactly one step and one increment per completed iteration
+    cnt = N["iteration"]
     is_step = lambda n: is_method_call(n, "_compute_step")
-    is_inc = lambda n: is_aug(n, "iteration") and isinstance(n.op, ast.Add) and const_value(n.value) == 1
+    is_inc = lambda n: cnt is not None and is_aug(n, cnt) and isinstance(n.op, ast.Add) and const_value(n.value) == 1
     n_back = 0
     for p in L.paths:
         ns, ni = count_in_path(p, is_step), count_in_path(p, is_inc)
@@ -160,7 +173,7 @@ def accounting(prog: Program, rep) -> None:
             n_back += 1
             if ns != 1 or ni != 1:
                 rep.fail("iteration-accounting", sv.qualname, f"path with {ns} step computations and {ni} increments",
-                         f"VIOLATED: a path through the loop body reaches the back edge with {ns} _compute_step call(s) and {ni} `iteration += 1` "
+                         f"VIOLATED: a path through the loop body reaches the back edge with {ns} _compute_step call(s) and {ni} increment(s) of the iteration counter "
                          f"(decisions: {[('T' if it[2] else 'F') + ':' + U(it[1])[:40] for it in p.items if it[0] == 'test']})", sv.loc(L.loop))
                 break
         elif p.end == "break":
@@ -171,19 +184,19 @@ def accounting(prog: Program, rep) -> None:
             rep.fail("status-exhaustive", sv.qualname, "return inside the main loop", "VIOLATED: Solver.solve returns from inside the main loop", sv.loc(L.loop))
             break
     else:
-        rep.ok("iteration-accounting", sv.short, f"all {n_back} back-edge paths have exactly one _compute_step and one `iteration += 1`; break paths have none")
-    writes = L.stores_in_loop("iteration")
+        rep.ok("iteration-accounting", sv.short, f"all {n_back} back-edge paths have exactly one _compute_step and one increment of the iteration counter; break paths have none")
+    writes = L.stores_in_loop(cnt)
     rep.check(len(writes) == 1 and is_inc(writes[0].stmt), "iteration-accounting", sv.qualname, short(writes[0].stmt) if writes else "",
-              "the only write to `iteration` inside the loop is the single `iteration += 1`", sv.loc(writes[0].stmt) if writes else sv.loc())
+              "the only write to the iteration counter inside the loop is the single `+= 1`", sv.loc(writes[0].stmt) if writes else sv.loc())
     # (c) start at literal 0
-    d0 = L.last_def_before_loop("iteration")
+    d0 = L.last_def_before_loop(cnt)
     rep.check(d0 is not None and const_value(d0.stmt.value) == 0, "iteration-accounting", sv.qualname, short(d0.stmt) if d0 else "",
-              "`iteration` is the literal 0 when the loop is entered", sv.loc(d0.stmt) if d0 else sv.loc())
-    # breaks only in the status block; loop is `while True`
+              "the iteration counter is the literal 0 when the loop is entered", sv.loc(d0.stmt) if d0 else sv.loc())
+    # exits
     breaks = [n for n in ast.walk(L.loop) if isinstance(n, ast.Break)]
-    inside = {id(n) for n in ast.walk(second)} if second is not None else set()
-    rep.check(all(id(b_) in inside for b_ in breaks) and isinstance(L.loop.test, ast.Constant) and L.loop.test.value is True and not L.loop.orelse,
-              "status-exhaustive", sv.qualname, "while True", "the loop is `while True` and is left only through the status break (or an abort raise)", sv.loc(L.loop))
+    inside = {id(n) for n in ast.walk(status_block)} if status_block is not None else set()
+    rep.check(all(id(b_) in inside for b_ in breaks) and not L.loop.orelse,
+              "status-exhaustive", sv.qualname, "loop exits", "the loop is left only through the termination test (or an abort raise)", sv.loc(L.loop))
     raises = [s for s in ff.order if L.in_loop(s) and isinstance(s.stmt, ast.Raise)]
     for s in raises:
         ok = any(f[0] == "<=" and f[1] == "self.params.lamb_max" for f in s.facts)
@@ -194,17 +207,58 @@ def accounting(prog: Program, rep) -> None:
         raise AnalysisError("Solver.solve builds not exactly one SolverResult")
     si = ff.stmt_of(res[0])
     itv = kwarg(res[0], "iterations")
-    rep.check(itv is not None and U(ff.resolved(si.stmt, itv)).startswith("__loop__('iteration'"), "iteration-accounting", sv.qualname, short(si.stmt),
+    rep.check(itv is not None and cnt is not None and U(ff.resolved(si.stmt, itv)).startswith(f"__loop__('{cnt}'"), "iteration-accounting", sv.qualname, short(si.stmt),
               "SolverResult.iterations is the loop counter", sv.loc(res[0]))
-    stv = arg_status(prog, ff, si, res[0])
+    stv = arg_status(prog, ff, si, res[0], status_name)
     rep.check(stv, "status-exhaustive", sv.qualname, short(si.stmt), "SolverResult.status is the status that ended the loop", sv.loc(res[0]))
     rep.pin("paths through the main loop body", len(L.paths), 8)
 
 
-def arg_status(prog, ff, si, call) -> bool:
+def arg_status(prog, ff, si, call, status_name=None) -> bool:
     r = prog.func("pygradflow.result.SolverResult.__init__")
     b = bind_args(r, call)
     if not b or "status" not in b:
         return False
     t = U(ff.resolved(si.stmt, b["status"]))
-    return t.startswith("__loop__('status'") or "_check_terminate(" in t
+    return (status_name is not None and t.startswith(f"__loop__('{status_name}'")) or "_check_terminate(" in t
+
+
+def integration_accounting(prog: Program, rep) -> None:
+    """IntegrationSolver.solve: every completed round increments the counter exactly once and then passes the iteration-limit test."""
+    from ..loopflow import block_paths
+    f = prog.func("pygradflow.integration.integration_solver.IntegrationSolver.solve")
+    ff = facts_for(f)
+    loops = [s for s in ff.order if isinstance(s.stmt, ast.While) and not s.loops and any(is_method_call(n, "perform_integration") for n in ast.walk(s.stmt))]
+    if len(loops) != 1:
+        raise AnalysisError("IntegrationSolver.solve: cannot identify the main loop")
+    lp = loops[0].stmt
+    # the counter: what SolverResult receives as iterations
+    res = [n for n in own_nodes(f.node) if isinstance(n, ast.Call) and dotted(n.func) == "SolverResult"]
+    cnt = None
+    if len(res) == 1:
+        v = kwarg(res[0], "iterations")
+        if v is not None:
+            cnt = loop_name(U(ff.resolved(ff.stmt_of(res[0]).stmt, v)))
+    if cnt is None:
+        raise AnalysisError("IntegrationSolver.solve: cannot identify the iteration counter")
+    is_inc = lambda n: is_aug(n, cnt) and isinstance(n.op, ast.Add) and const_value(n.value) == 1
+    is_int = lambda n: is_method_call(n, "perform_integration")
+
+    def is_limit_test(item):
+        if item[0] != "test":
+            return False
+        t = U(item[1])
+        return "iteration_limit" in t and cnt in t
+    bad = None
+    nb = 0
+    for p in block_paths(lp.body):
+        if p.end not in ("fall", "continue"):
+            continue
+        nb += 1
+        ni, nn = count_in_path(p, is_inc), count_in_path(p, is_int)
+        idx_inc = first_index(p, is_inc)
+        lim = [i for i, it in enumerate(p.items) if is_limit_test(it) and i > idx_inc]
+        if ni != 1 or nn != 1 or not lim:
+            bad = f"{nn} integration(s), {ni} increment(s), limit test after the increment: {bool(lim)}"
+            break
+    rep.check(bad is None, "integration-iteration-accounting", f.qualname, "while True", f"every completed round of the flow-integration solver performs one integration, one increment and then the iteration-limit test" + (f" (a path has {bad})" if bad else f" ({nb} back-edge paths)"), f.loc(lp))
